@@ -39,7 +39,10 @@ Scn == [irt : Irt, sirt : Sirt, dest : Dest, aud : Aud, recip : Recip, allow : B
         sameFrom : BOOLEAN,
         \* an authentication response over a browser binding, or the answer to an attribute query (synchronous, SOAP:
         \* no solicitation bookkeeping, no Destination check -- but the audience restrictions bind all the same)
-        mtype : {"authn", "attribute"}, window : Window]
+        mtype : {"authn", "attribute"}, window : Window,
+        \* what the conversation information holds when the application supplies it: entity id, remote address and request URI,
+        \* or the last two only (no entity id: a Recipient can then only be one of the SP's own consumer URLs)
+        convKind : {"full", "noEntity"}]
 \* "triples": the same two endpoints written as (location, binding, index) -- the third form the metadata generator
 \* accepts.  Config.endpoint does not unpack it: nothing ever equals such an entry.
 \* without an endpoint for the arrival binding only the addressing dimensions are varied
@@ -51,6 +54,8 @@ WellFormed(s) == /\ s.endpoint = "otherBindingOnly" =>
                  /\ (s.mtype = "attribute" => /\ s.endpoint = "configured" /\ s.conf2 = "absent" /\ ~s.sameFrom /\ ~s.regex /\ ~s.enc
                                              /\ s.dest = "none" /\ s.irt = "id1" /\ s.sirt = "id1" /\ s.recip = "url" /\ s.binding = "post" /\ ~s.conv)
                  /\ (s.conf2 = "absent" => ~s.conf2first)
+                 /\ (s.convKind = "noEntity" => /\ s.conv /\ s.endpoint = "configured" /\ s.conf2 = "absent" /\ ~s.sameFrom /\ ~s.regex /\ s.mtype = "authn"
+                                                /\ s.irt = "id1" /\ s.sirt = "id1" /\ s.dest = "own" /\ s.window = "both" /\ s.aud = "me")
                  /\ (s.window # "both" => /\ s.endpoint = "configured" /\ s.conf2 = "absent" /\ ~s.sameFrom /\ ~s.regex /\ s.mtype = "authn"
                                           /\ s.irt = "id1" /\ s.sirt = "id1" /\ s.dest = "own" /\ s.recip = "url")
                  /\ (s.sameFrom => s.irt = "id1" /\ s.sirt \in {"id1", "id2"} /\ s.conf2 = "absent" /\ s.endpoint = "configured"
@@ -62,7 +67,7 @@ WellFormed(s) == /\ s.endpoint = "otherBindingOnly" =>
 \* the scenarios, built slice by slice (filtering the full product of Scn costs TLC a minute)
 MkW(irt, sirt, dest, aud, recip, regex, binding, enc, endpoint, conf2, conf2first, sameFrom, mtype, conv, window) ==
     [irt : irt, sirt : sirt, dest : dest, aud : aud, recip : recip, allow : BOOLEAN, conv : conv, regex : regex, binding : binding,
-     enc : enc, endpoint : endpoint, conf2 : conf2, conf2first : conf2first, sameFrom : sameFrom, mtype : mtype, window : window]
+     enc : enc, endpoint : endpoint, conf2 : conf2, conf2first : conf2first, sameFrom : sameFrom, mtype : mtype, window : window, convKind : {"full"}]
 Mk(irt, sirt, dest, aud, recip, regex, binding, enc, endpoint, conf2, conf2first, sameFrom, mtype, conv) ==
     MkW(irt, sirt, dest, aud, recip, regex, binding, enc, endpoint, conf2, conf2first, sameFrom, mtype, conv, {"both"})
 Scenarios ==
@@ -77,6 +82,10 @@ Scenarios ==
             {"authn"}, BOOLEAN)
     \cup MkW({"id1"}, {"id1"}, {"own"}, Aud, {"url"}, {FALSE}, Bind, BOOLEAN, {"configured"}, {"absent"}, {FALSE}, {FALSE}, {"authn"}, BOOLEAN,
              Window \ {"both"})
+ConvSlice == [irt : {"id1"}, sirt : {"id1"}, dest : {"own"}, aud : {"me"}, recip : Recip, allow : BOOLEAN, conv : {TRUE}, regex : {FALSE},
+              binding : Bind, enc : BOOLEAN, endpoint : {"configured"}, conf2 : {"absent"}, conf2first : {FALSE}, sameFrom : {FALSE},
+              mtype : {"authn"}, window : {"both"}, convKind : {"noEntity"}]
+ASSUME \A s \in ConvSlice : s \in Scn /\ WellFormed(s)
 ASSUME \A s \in Scenarios : s \in Scn /\ WellFormed(s)
 
 \* audience restrictions as a sequence of sets of audiences
@@ -93,7 +102,7 @@ Restr(a) == CASE a = "none" -> <<>>
 VARIABLES scn, pc, cameFrom, verdict
 vars == <<scn, pc, cameFrom, verdict>>
 
-Init == scn \in Scenarios /\ pc = "loads" /\ cameFrom = "none" /\ verdict = "none"
+Init == scn \in Scenarios \cup ConvSlice /\ pc = "loads" /\ cameFrom = "none" /\ verdict = "none"
 
 Reject == verdict' = "reject" /\ pc' = "done" /\ UNCHANGED <<scn, cameFrom>>
 Goto(p) == pc' = p /\ UNCHANGED <<scn, cameFrom, verdict>>
@@ -125,7 +134,7 @@ Conditions ==
 
 \* get_subject: _bearer_confirmed, verify_recipient; then the tail of _assertion
 \* every confirmation that passes _bearer_confirmed has its Recipient verified (get_subject raises at the first foreign one)
-RecipOK == /\ ~scn.conv \/ scn.recip = "entityid" \/ (scn.recip = "url" /\ scn.endpoint = "configured")
+RecipOK == /\ ~scn.conv \/ (scn.recip = "entityid" /\ scn.convKind = "full") \/ (scn.recip = "url" /\ scn.endpoint = "configured")
            /\ ~scn.conv \/ scn.conf2 # "foreign"
 Subject ==
     /\ pc = "subject"
@@ -151,7 +160,7 @@ MustReject == \/ ~AudOK
               \/ (scn.conv /\ scn.conf2 = "foreign")
               \/ (scn.mtype = "authn" /\ ~scn.allow /\ ~Solicited)
 \* the fully conformant shapes (the property is an "only if"; nothing else is demanded to pass)
-MustAccept == /\ scn.endpoint = "configured" /\ AudOK /\ scn.conf2 \notin {"foreign", "otherIrt"} /\ scn.dest \in {"own", "none"} /\ scn.recip \in {"url"} \cup (IF scn.conv THEN {"entityid"} ELSE {})
+MustAccept == /\ scn.endpoint = "configured" /\ AudOK /\ scn.conf2 \notin {"foreign", "otherIrt"} /\ scn.dest \in {"own", "none"} /\ scn.recip \in {"url"} \cup (IF scn.conv /\ scn.convKind = "full" THEN {"entityid"} ELSE {})
               /\ \/ (scn.irt = "id1" /\ scn.sirt = "id1")
                  \/ (scn.allow /\ scn.irt = "none" /\ scn.sirt = "none")
 ExpectedCameFrom == IF scn.mtype = "authn" /\ scn.irt \in Outstanding THEN scn.irt ELSE "unspecified"
